@@ -1,14 +1,16 @@
 (* Properties/C11.v — Binary Merkle trees behave like fresh trees across reset and reload.
    Abstract state (L3) = the list of leaves pushed since the last reset / recorded up to the
    reload point; `spec_run` gives what a fresh tree holding exactly those leaves reports. *)
-From FV Require Import Base.Bytes Base.U64 Base.Map Merkle.RFC6962 Merkle.BinaryModel Merkle.BinaryHistory.
+From FV Require Import Base.Bytes Base.U64 Base.Map Merkle.RFC6962 Merkle.BinaryModel Merkle.BinaryHistory Merkle.ProveProofs.
 Open Scope N_scope.
 
 (* FULL statement: every history of pushes (< 2^63 leaves), resets, reloads at a recorded count,
-   root / count queries and proof requests for ANY index.  Two parts of it are not yet proved for
-   the storage-backed tree — in-range proof requests (needs prove = RFC PATH, see C10) and reloads
-   at counts above 4096 (peak positions checked by computation up to 4096 only) — so it is kept as a
-   definition, never as a theorem; the proved scope is `hist_ok` below. *)
+   root / count queries and proof requests for ANY index.  Two parts of it are not proved in full
+   generality for the storage-backed tree — in-range proof requests at counts above 128 (proved
+   under the computable premise `sides_ok`, which is checked by computation up to 128 leaves; see
+   C10) and reloads at counts above 4096 (peak positions checked by computation up to 4096 only) —
+   so it is kept as a definition, never as a theorem; the proved scopes are `hist_ok` and the
+   larger `hist_okp` below. *)
 Section Full.
   Context {D : Type} (leaf_sum : bytes -> D) (node_sum : D -> D -> D) (empty_sum : D).
   Fixpoint full_scope (ls : list bytes) (ops : list hop) : Prop :=
@@ -62,9 +64,41 @@ Theorem C11_peaks_checked : forall k, k <= 4096 -> peaks_ok k = true.
 Proof. exact peaks_ok_4096. Qed.
 Print Assumptions C11_peaks_checked.
 
+(* histories that ALSO contain in-range proof requests: `hist_okp` = `hist_ok` plus HProve i below
+   the current count whenever the side positions for (i, count) were checked (`sides_ok`; all
+   counts up to 128 are, by C11_sides_checked).  The proof returned is the RFC audit path of the
+   fresh tree holding the leaves since the last reset. *)
+Theorem C11_refine_with_proofs_partial :
+  forall (D : Type) (leaf_sum : bytes -> D) (node_sum : D -> D -> D) (empty_sum : D) (ops : list hop),
+    hist_okp leaf_sum node_sum empty_sum [] ops ->
+    m_run leaf_sum node_sum empty_sum tree_new ops = Some (spec_run leaf_sum node_sum empty_sum [] ops).
+Proof.
+  intros D lf nd e ops H. apply (history_refines_proofs lf nd e ops tree_new []); [apply tinv_new | reflexivity | exact H].
+Qed.
+Print Assumptions C11_refine_with_proofs_partial.
+
+Theorem C11_refine_with_proofs_from_any_state :
+  forall (D : Type) (leaf_sum : bytes -> D) (node_sum : D -> D -> D) (empty_sum : D)
+         (ops : list hop) (t : tree) (ls : list bytes),
+    tinv leaf_sum node_sum empty_sum t ls -> lenN ls < 2 ^ 63 -> hist_okp leaf_sum node_sum empty_sum ls ops ->
+    m_run leaf_sum node_sum empty_sum t ops = Some (spec_run leaf_sum node_sum empty_sum ls ops).
+Proof. exact @history_refines_proofs. Qed.
+Print Assumptions C11_refine_with_proofs_from_any_state.
+
+Theorem C11_sides_checked : forall c i, c <= 128 -> i < c -> sides_ok i c = true.
+Proof. exact sides_ok_128. Qed.
+Print Assumptions C11_sides_checked.
+
 (* non-vacuity: a concrete history with pushes, a reload, a reset and a refused proof is in scope *)
 Example C11_scope_inhabited :
   hist_ok (fun _ => tt) (fun _ _ => tt) tt []
     [HPush [1]; HPush [2]; HPush [3]; HPush [4]; HPush [5]; HLoad 3; HRoot; HPush [6]; HReset;
      HPush [7]; HRoot; HProve 1; HProve 9].
 Proof. vm_compute. repeat split; discriminate || reflexivity || (intros H; discriminate H). Qed.
+
+(* non-vacuity of the extended scope: pushes, an in-range proof, a reload, more proofs, a reset *)
+Example C11_scope_with_proofs_inhabited :
+  hist_okp (fun _ => tt) (fun _ _ => tt) tt []
+    [HPush [1]; HPush [2]; HPush [3]; HProve 1; HPush [4]; HPush [5]; HProve 4; HLoad 3; HProve 2; HRoot;
+     HPush [6]; HProve 0; HReset; HPush [7]; HProve 0; HProve 9].
+Proof. vm_compute. repeat split; auto; try discriminate; try (intros H; discriminate H). Qed.
